@@ -173,7 +173,8 @@ def run(prog: Program, res: Result) -> None:  # noqa: PLR0912, PLR0915
                 continue
             what = f"{fn.name}: arm `{key}` threads the carry"
             if "is_content_token" in key:
-                ok = any("left_trim=left_trim" in s for s in body) and "left_trim = default_trim" in body
+                # after text only more text can follow without setting the carry: nothing is trimmed between two pieces of text
+                ok = any("left_trim=left_trim" in s for s in body) and "left_trim = WhitespaceControl.PLUS" in body
             elif "is_tag_token" in key:
                 ok = body and body[0] == "stream.trim_carry = token.wc[-1]" and body[-1] == "left_trim = stream.trim_carry"
             elif key.startswith("is_"):
@@ -188,7 +189,7 @@ def run(prog: Program, res: Result) -> None:  # noqa: PLR0912, PLR0915
     what = "parse starts from env.default_trim, parse_block from stream.trim_carry"
     ia = [norm(s) for s in pa.node.body if isinstance(s, ast.Assign) and norm(s.targets[0]) == "left_trim"]
     ib = [norm(s) for s in pb.node.body if isinstance(s, ast.Assign) and norm(s.targets[0]) == "left_trim"]
-    if ia == ["left_trim = default_trim"] and ib == ["left_trim = stream.trim_carry"]:
+    if len(ia) == 1 and ia[0].endswith("default_trim") and ib == ["left_trim = stream.trim_carry"]:
         res.ok("C18.R3", f"{parser.file}:{pa.node.lineno} Parser", what, "declared difference only")
     else:
         res.fail("C18.R3", file=parser.file, line=pb.node.lineno, qualname="Parser.parse_block", construct=f"initial left_trim parse={ia} parse_block={ib}", message="the first text of a block does not take its left trim from the tag that opened the block", what=what)
